@@ -30,6 +30,28 @@ variable (cls : Char → CClass) [AsciiOK cls]
 theorem numEnds_sp (r : List Char) : NumEnds cls (' ' :: r) := numEnds_ascii cls _ _ (by decide)
 theorem wordEnds_sp (r : List Char) : WordEnds cls (' ' :: r) := wordEnds_ascii cls _ _ (by decide)
 
+theorem lex_dec12' (d : Nat) (rest : List Char) (he : NumEnds cls rest) :
+    scan cls .init (dec12 d ++ rest) = dayTok d :: scan cls .init rest := by
+  unfold dec12 dayTok
+  split
+  · exact lex_dtok cls d [] rest he
+  · exact lex_pad2 cls d rest he
+
+theorem monWordA (yf : Bool) (year century : Int) (m : Nat) (h1 : 1 ≤ m) (h2 : m ≤ 12) :
+    MonWord cls (Info.default false yf year century) (monAbbr m) m ∧ isAlphaWord (monAbbr m) = true := by
+  obtain ⟨a1, _, a3, _, a5, _, a7, _, a9, _, a11, _, a13, _⟩ := mon_facts m h1 h2
+  exact ⟨⟨floatOk_alpha cls _ a5 a7, a3, a1, a9, a11, a13, isDigitTok_alpha cls _ a5⟩, a5⟩
+
+theorem monWordF (yf : Bool) (year century : Int) (m : Nat) (h1 : 1 ≤ m) (h2 : m ≤ 12) :
+    MonWord cls (Info.default false yf year century) (monFull m) m ∧ isAlphaWord (monFull m) = true := by
+  obtain ⟨_, a2, _, a4, _, a6, _, a8, _, a10, _, a12, _, a14⟩ := mon_facts m h1 h2
+  exact ⟨⟨floatOk_alpha cls _ a6 a8, a4, a2, a10, a12, a14, isDigitTok_alpha cls _ a6⟩, a6⟩
+
+theorem wdWordA (yf : Bool) (year century : Int) (w : Nat) (h : w < 7) :
+    WdWord cls (Info.default false yf year century) (wdAbbr w) w ∧ isAlphaWord (wdAbbr w) = true := by
+  obtain ⟨a1, a2, a3⟩ := wd_facts w h
+  exact ⟨⟨floatOk_alpha cls _ a2 a3, a1⟩, a2⟩
+
 /-- a single ASCII letter as a word -/
 theorem lex_letter (c : Char) (rest : List Char)
     (h : [c].all (fun c => decide (c.toNat < 128) && (asciiCls c).isWord && decide (c ≠ '\x00')) = true)
